@@ -306,7 +306,7 @@ def run(ctx):
     ctx.rule('C02.R21', "a value is compared with a constant in the domain of its own type: in the sources of this property every comparison of a variable, member, element or call result with an integer constant (==, !=) has the constant inside the value range of the operand's own integer type before promotion - a symbol held in a signed char never equals 0xA9/0xAA/0xFE, so the escape, SYN or broadcast test behind it is dead for exactly the symbols it exists for", minimum=60)
     _cm.compare_domain_rule(ctx, 'C02.R21', lambda f: f.relfile.startswith(('src/lib/ebus/protocol', 'src/lib/ebus/symbol.', 'src/lib/ebus/device')), 60)
     import rules.options as _opt
-    ctx.rule('C02.R20', 'the timeouts the exchange runs with are the configured ones: for every accepted value of --receivetimeout, --acquiretimeout and --latency (evaluated from the typed AST of parse_opt over the whole accepted range) a value up to 1000 is stored as milliseconds unchanged and a value above 1000 (old microsecond form) as value / 1000; a documented value that is stored as 0 makes ebusd give up a valid exchange without waiting for the ACK', minimum=3)
+    ctx.rule('C02.R20', 'the timeouts the exchange runs with are the configured ones: for every accepted value of --receivetimeout, --acquiretimeout and --latency (the statements of the option case evaluated from the typed AST for every value up to 2100 and around every multiple of 1000 of the accepted range) a value up to 1000 is stored as milliseconds unchanged and a value above 1000 (old microsecond form) as value / 1000; a documented value that is stored as 0 makes ebusd give up a valid exchange without waiting for the ACK', minimum=3)
     _opt.time_option_rule(ctx, 'C02.R20')
     import rules.C03 as c03
     c03.initial_state_rule(ctx, 'C02.R16')
